@@ -14,6 +14,7 @@ import (
 	"github.com/aws/smithy-go"
 	"github.com/truora/minidyn/core"
 	"github.com/truora/minidyn/interpreter"
+	coretypes "github.com/truora/minidyn/types"
 )
 
 const (
@@ -194,16 +195,21 @@ func (fd *Client) UpdateTable(ctx context.Context, input *dynamodb.UpdateTableIn
 		return nil, &types.ResourceNotFoundException{Message: aws.String("Cannot do operations on a non-existent table")}
 	}
 
+	var attrs []*coretypes.AttributeDefinition
 	if input.AttributeDefinitions != nil {
-		table.SetAttributeDefinition(mapDynamoToTypesAttributeDefinitionSlice(input.AttributeDefinitions))
+		attrs = mapDynamoToTypesAttributeDefinitionSlice(input.AttributeDefinitions)
 	}
 
+	changes := make([]*coretypes.GlobalSecondaryIndexUpdate, 0, len(input.GlobalSecondaryIndexUpdates))
 	for _, change := range input.GlobalSecondaryIndexUpdates {
-		if err := table.ApplyIndexChange(mapDynamoTotypesGlobalSecondaryIndexUpdate(change)); err != nil {
-			return &dynamodb.UpdateTableOutput{
-				TableDescription: mapTypesToDynamoTableDescription(table.Description(tableName)),
-			}, mapKnownError(err)
-		}
+		changes = append(changes, mapDynamoTotypesGlobalSecondaryIndexUpdate(change))
+	}
+
+	// a failing change leaves the table as it was
+	if err := table.ApplyIndexChanges(attrs, changes); err != nil {
+		return &dynamodb.UpdateTableOutput{
+			TableDescription: mapTypesToDynamoTableDescription(table.Description(tableName)),
+		}, mapKnownError(err)
 	}
 
 	return &dynamodb.UpdateTableOutput{
